@@ -3,6 +3,7 @@ from fractions import Fraction
 
 import core
 import rwlib
+import schedlib
 from core import run_models, wr_list, Reader
 from props.c01 import job_of_case, describe
 
@@ -14,7 +15,7 @@ RULE = ("X-sched: for fixed event sets the real parallel learner is run for n_jo
         "magnitude above its normal duration (a missed deadline is confirmed by an isolated re-run). The exactly-once "
         "probe (one single-cue event, alpha*beta1 = 1/2: 1/2 once, 3/4 twice, 0 never) runs for every outcome. "
         "ndl.slice_list is compared with the model exhaustively for len <= 40, n <= 45. A case is non-trivial when "
-        "n_jobs > 1 or there is more than one part; distinct by content hash.")
+        "n_jobs > 1 or there is more than one part; distinct by content hash. " + schedlib.RULE + ".")
 TRUSTED = ["CPython threads/GIL, libgomp and the hardware memory model are not modelled: real interleavings are amplified "
            "and observed, the model exhibits every interleaving at row-update granularity"]
 ASSUMPTIONS = ["termination of the real runs is observed as a deadline (120 s per call, ~1 s normal), not proved"]
@@ -181,7 +182,10 @@ def run(ctx):
                                  "case": d, "full_events": cs["es"]})
             break
     rep.coverage["traces_validated_against_impl"] += len(cases)
-    n, badi = core.coq_crosscheck(enc + menc[:100], mo_all + mouts[:100])
+    # ---- the real worker loop under schedules chosen here, step-aligned with the Coq machine ---------------
+    _, senc, smo = schedlib.run(ctx, 3000 if ctx.thorough else 400, "some")
+    rep.lap("controlled_schedules")
+    n, badi = core.coq_crosscheck(enc + menc[:100] + senc[:40], mo_all + mouts[:100] + smo[:40])
     rep.note("vm_compute_crosschecked_cases", n)
     if badi:
         rep.violation("extracted model and vm_compute disagree", {"cases": badi}, no_input=True)
